@@ -223,7 +223,8 @@ class Exec(ExprMixin):
             self.oblige('type.%s#%d' % (attr, self._next_site()), st, side, 'type',
                         'value stored into .%s conforms to its declared type %r' % (attr, ty))
             st.assume(side)
-        st.set_arr('f_' + attr, z3.Store(st.h.arr['f_' + attr], a, term))
+        sa = self.reg.schema.storage(cls, attr)
+        st.set_arr('f_' + sa, z3.Store(st.h.arr['f_' + sa], a, term))
         if ty.kind in ('list', 'dict', 'set') and v.kind == 'ref':
             st.set_arr('own_obj', z3.Store(st.h.arr['own_obj'], v.t, a))
             st.set_arr('own_fld', z3.Store(st.h.arr['own_fld'], v.t, z3.IntVal(field_id(attr))))
@@ -283,8 +284,22 @@ class Exec(ExprMixin):
 
     # ------------------------------------------------------------------ try
     def st_Try(self, s, st):
-        if s.finalbody or s.orelse:
-            raise Unsupported('try/finally/else')
+        if s.orelse:
+            raise Unsupported('try/else')
+        if s.finalbody:
+            # try ... finally: the final block runs on every way out of the body (fall-through, return, raise)
+            inner = ast.Try(body=s.body, handlers=s.handlers, orelse=[], finalbody=[]) if s.handlers else None
+            n0 = len(self.exits)
+            outs = self.st_Try(inner, st) if inner is not None else self.exec_block(s.body, st)
+            new_exits = self.exits[n0:]
+            del self.exits[n0:]
+            res = []
+            for o in outs:
+                res.extend(self.exec_block(s.finalbody, o))
+            for x in new_exits:
+                for o in self.exec_block(s.finalbody, x.state):
+                    self.exits.append(Exit(x.kind, o, value=x.value, exc=x.exc, site=x.site))
+            return res
         frame = []
         for hd in s.handlers:
             if hd.type is None or not isinstance(hd.type, ast.Name):
